@@ -14,10 +14,29 @@ pub broadcast axiom fn axiom_display_str(s: &str) ensures #[trigger] display_vie
 pub broadcast axiom fn axiom_display_str_ref<'a>(s: &&'a str) ensures #[trigger] display_view::<&'a str>(s) == (*s)@;
 pub broadcast axiom fn axiom_display_string(s: &String) ensures #[trigger] display_view::<String>(s) == s@;
 pub broadcast axiom fn axiom_display_string_ref<'a>(s: &&'a String) ensures #[trigger] display_view::<&'a String>(s) == (*s)@;
-pub broadcast group group_display { axiom_display_str, axiom_display_str_ref, axiom_display_string, axiom_display_string_ref }
+pub broadcast axiom fn axiom_display_str_ref_ref<'a, 'b>(s: &&'b &'a str) ensures #[trigger] display_view::<&'b &'a str>(s) == (**s)@;
+pub broadcast group group_display { axiom_display_str, axiom_display_str_ref, axiom_display_string, axiom_display_string_ref, axiom_display_str_ref_ref }
 #[verifier::external_body]
 pub fn vx_fmt1<T: core::fmt::Display + ?Sized>(pre: &str, a: &T, post: &str) -> (r: String)
     ensures r@ == pre@ + display_view(a) + post@
 { format!("{pre}{a}{post}") }
+
+// R15 shims for `write!` / `writeln!` into a String with at most one plain placeholder (fmt::Write for String appends)
+#[verifier::external_body]
+pub fn vx_write0(w: &mut String, s: &str) -> (r: core::fmt::Result)
+    ensures r is Ok ==> final(w)@ == old(w)@ + s@
+{ use core::fmt::Write; w.write_str(s) }
+#[verifier::external_body]
+pub fn vx_writeln0(w: &mut String, s: &str) -> (r: core::fmt::Result)
+    ensures r is Ok ==> final(w)@ == old(w)@ + s@ + seq!['\n']
+{ use core::fmt::Write; writeln!(w, "{s}") }
+#[verifier::external_body]
+pub fn vx_write1<T: core::fmt::Display + ?Sized>(w: &mut String, pre: &str, a: &T, post: &str) -> (r: core::fmt::Result)
+    ensures r is Ok ==> final(w)@ == old(w)@ + pre@ + display_view(a) + post@
+{ use core::fmt::Write; write!(w, "{pre}{a}{post}") }
+#[verifier::external_body]
+pub fn vx_writeln1<T: core::fmt::Display + ?Sized>(w: &mut String, pre: &str, a: &T, post: &str) -> (r: core::fmt::Result)
+    ensures r is Ok ==> final(w)@ == old(w)@ + pre@ + display_view(a) + post@ + seq!['\n']
+{ use core::fmt::Write; writeln!(w, "{pre}{a}{post}") }
 
 } // verus!
